@@ -227,7 +227,9 @@ pub fn write_case_m(ctx: &mut Ctx, compressed: bool, frames: &[Vec<u8>]) {
 /// the write half under back-pressure: the peer does not read for a while, both socket buffers are small, so
 /// the flush inside `poll_write` is `Pending` for many packets; afterwards the client keeps reading (which drives
 /// the pending flush) and every written packet must have left as exactly one binary message, once, in order
-pub fn backpressure_case(ctx: &mut Ctx, n: usize) {
+pub fn backpressure_case(ctx: &mut Ctx, n: usize) { backpressure_case_p(ctx, "c20", n) }
+/// … also run by C06 (every written packet reaches the transport once, in call order, however often it is not ready)
+pub fn backpressure_case_p(ctx: &mut Ctx, prop: &str, n: usize) {
     ctx.oracle_eval("write under back-pressure");
     let frames: Vec<Vec<u8>> = (0..n).map(|i| {
         let p = insim::Packet::Msl(insim::insim::Msl { msg: format!("packet number {:06} ................................................................", i), ..Default::default() });
@@ -273,16 +275,16 @@ pub fn backpressure_case(ctx: &mut Ctx, n: usize) {
     }));
     let input = format!("ws.backpressure {}", n);
     match got {
-        None => ctx.violation("c20/write/panic", "writing under back-pressure panicked", &input, "messages", "panic"),
+        None => ctx.violation(&format!("{}/write/panic", prop), "writing under back-pressure panicked", &input, "messages", "panic"),
         Some(g) => {
             ctx.count(&format!("back-pressure: {} of {} packets arrived", g.len(), n));
             let first_bad = g.iter().zip(want.iter()).position(|(a, b)| a != b);
             if let Some(i) = first_bad {
-                ctx.violation("c20/write/backpressure-order", "under back-pressure a written packet did not leave as exactly one binary message containing exactly its frame (duplicate, reordered or damaged message)", &input, &format!("message #{} = frame #{}", i, i), &truncate(&hex(&g[i]), 60));
+                ctx.violation(&format!("{}/write/backpressure-order", prop), "under back-pressure a written packet did not leave as exactly one binary message containing exactly its frame (duplicate, reordered or damaged message)", &input, &format!("message #{} = frame #{}", i, i), &truncate(&hex(&g[i]), 60));
             } else if g.len() > want.len() {
-                ctx.violation("c20/write/backpressure-extra", "more binary messages than written packets", &input, &n.to_string(), &g.len().to_string());
+                ctx.violation(&format!("{}/write/backpressure-extra", prop), "more binary messages than written packets", &input, &n.to_string(), &g.len().to_string());
             } else if g.len() < want.len() {
-                ctx.violation("c20/write/backpressure-lost", "written packets never left although the connection stayed open and polled", &input, &n.to_string(), &g.len().to_string());
+                ctx.violation(&format!("{}/write/backpressure-lost", prop), "written packets never left although the connection stayed open and polled", &input, &n.to_string(), &g.len().to_string());
             }
         },
     }
